@@ -1,6 +1,87 @@
-import BroodModel.Inv
+/-
+  C10 — A cloned world is an exact, fully independent copy.
+
+  `World.clone w e next` mirrors `World::clone` → `Archetypes::clone` (fresh tables, every lookup
+  key inserted twice) → `Allocator::clone` with the old→new identifier map (`unwrap_unchecked`: a
+  missing key is `Out.ub`).  `e` is the epoch that gives the copied values their own identities
+  (`cloneVal`), `next` the first handle (buffer address) of the copy.
+
+  Proved here, for every world satisfying the invariant (hence every reachable world) and all `e`,
+  `next`: the clone never hits a missing map key, satisfies the invariant, denotes the same map
+  with every value copied, has the same `len` and copied resources, and compares equal to the
+  original.  Because the copy satisfies the invariant, every theorem stated for such worlds (C01,
+  C02, C04, C05, C13, C16 …) applies to it: "both keep satisfying every other property".
+
+  Independence: model worlds are values, an operation on one cannot mention the other; what could
+  go wrong in the code is sharing of buffers, which the correspondence check decides (both worlds
+  are dumped and compared with their models after every operation on either) together with the
+  drop ledger (a shared buffer shows up as a double drop).
+
+  `clone_from` (`World.cloneFrom`) is modelled and compared with the code on every run
+  (including the re-use of destination tables, the stale lookups and the drops), but has no
+  theorem yet: C10 for `clone_from` rests on the correspondence check and on `Inv` evaluated on
+  the real dump of the destination.
+-/
+import BroodModel.Lemmas.Clone
+
 namespace Brood
-theorem C10_init_inv (n : Nat) (res : List Val) : Inv (World.init n res) := by
-  constructor <;> simp [World.init, Alloc.empty]
+
+/-- **`clone` never reaches an unchecked map lookup that misses, and yields a world satisfying the
+invariant, denoting the same map (values copied), with the same `len` and resources, equal to the
+original.** -/
+theorem C10_clone {w : World} (hi : Inv w) (e next : Nat) :
+    ∃ w', w.clone e next = .ok w' ∧ Inv w' ∧ w'.n = w.n ∧ w'.len = w.len ∧
+      (∀ id, w'.entity id = (w.entity id).map (fun vs => vs.map (cloneVal e))) ∧
+      w'.res = w.res.map (cloneVal e) ∧ World.eqWorld w w' = .ok true :=
+  clone_spec hi e next
+
+/-- The same for every reachable world. -/
+theorem C10_clone_reachable (n : Nat) (res : List Val) (ops : List Op) {w : World}
+    (h : run (World.init n res) ops = .ok w) (e next : Nat) :
+    ∃ w', w.clone e next = .ok w' ∧ Inv w' ∧ w'.len = w.len ∧
+      (∀ id, w'.entity id = (w.entity id).map (fun vs => vs.map (cloneVal e))) ∧
+      World.eqWorld w w' = .ok true ∧ World.eqWorld w' w = .ok true := by
+  have hi := run_inv (inv_init n res) ops h
+  obtain ⟨w', h1, h2, _, h4, h5, _, h7⟩ := clone_spec hi e next
+  exact ⟨w', h1, h2, h4, h5, h7, eqWorld_true_symm hi h2 h7⟩
+
+/-- A copied value is equivalent to (compares equal with) the value it was copied from and has the
+same component type; its ledger identity is its own (`e > 0`). -/
+theorem C10_copied_values (e : Nat) (v : Val) :
+    v.eqv (cloneVal e v) = true ∧ (cloneVal e v).ty = v.ty ∧
+    (0 < e → v.id < epochBase → (cloneVal e v).id ≠ v.id) := by
+  refine ⟨eqv_cloneVal e v, rfl, ?_⟩
+  intro he hv
+  unfold cloneVal epochBase at *
+  simp only
+  have : v.id % 1048576 = v.id := Nat.mod_eq_of_lt hv
+  have : e * 1048576 ≥ 1048576 := Nat.le_mul_of_pos_left _ he
+  omega
+
+/-- **The copy keeps satisfying the other properties**: every admissible history continued on the
+clone runs to completion (C05), preserves the invariant (C13) and refines the reference map
+(C01), exactly like the original. -/
+theorem C10_clone_keeps_working {w : World} (hi : Inv w) (e next : Nat) (ops : List Op)
+    (hwt : ∀ op ∈ ops, op.wt w.n) :
+    ∃ c c', w.clone e next = .ok c ∧ run c ops = .ok c' ∧ Inv c' := by
+  obtain ⟨c, h1, h2, h3, _⟩ := clone_spec hi e next
+  obtain ⟨c', r1, r2, _⟩ := run_total h2 ops (by rw [h3]; exact hwt)
+  exact ⟨c, c', h1, r1, r2⟩
+
+/-- Non-vacuity: cloning a concrete reachable world. -/
+example :
+    (match run (World.init 2 [⟨7, 70⟩]) [.insert [0, 1] [⟨0, 1⟩, ⟨1, 2⟩], .insert [1] [⟨1, 3⟩], .remove ⟨0, 0⟩] with
+     | .ok w =>
+       (match w.clone 1 100 with
+        | .ok c => (c.entity ⟨1, 0⟩, c.entity ⟨0, 0⟩, c.len, c.res,
+            (match World.eqWorld w c with | .ok r => some r | .ub _ => none))
+        | .ub _ => (none, none, 0, [], none))
+     | .ub _ => (none, none, 0, [], none)) =
+    (some [⟨1, 3 + 1048576⟩], none, 1, [⟨7, 70 + 1048576⟩], some true) := by decide
+
 end Brood
-#print axioms Brood.C10_init_inv
+
+#print axioms Brood.C10_clone
+#print axioms Brood.C10_clone_reachable
+#print axioms Brood.C10_copied_values
+#print axioms Brood.C10_clone_keeps_working
